@@ -449,4 +449,30 @@ theorem sessMonitor_complete (nh made : Nat) (r : Req) (o : SObs) (h : sessMonit
         intro j n hj hne
         exact firstStray_none hs j n hj (by simpa using hne)
 
+/-! ### Non-vacuity: the session clauses can be reported, and silence is possible -/
+
+section witnesses
+
+private def wsc (gr : List String) (exp : Int) : Script := { err := none, info := some (gr, some exp), opts := none, now := 10 }
+private def wop : Opts String := { rm := "https://rs/meta", scopes := ["a", "b"], allowMissing := false, skew := 0 }
+private def wReq (gr : List String) : Req := Req.ofSession (some wop) "Bearer t".toList (wsc gr 20)
+private def wRan : Obs :=
+  { status := 299, ran := 1, layers := [{ seen := .found (.L 0), calls := 1, token := some "t".toList }], www := [], late := [], body := "inner" }
+
+/-- two handlers, wrapper made for handler 0: the model's behaviour passes -/
+example : sessMonitor 2 0 (wReq ["a", "b"]) { obs := wRan, hr := [1, 0] } = none := by decide
+/-- the other handler ran instead (one handler object per middleware value, `next` overwritten) -/
+example : sessMonitor 2 0 (wReq ["a", "b"]) { obs := { wRan with ran := 0 }, hr := [0, 1] } = some (.strayHandler 0 1) := by decide
+/-- admitted although this request's token lacks a required scope (requirement struck off by earlier requests) -/
+example : sessMonitor 2 0 (wReq ["a"]) { obs := wRan, hr := [1, 0] } = some (.base (.ranDespite 0 .scope)) := by decide
+/-- the handler found another request's TokenInfo (verifications coalesced) -/
+example : sessMonitor 2 0 (wReq ["a", "b"])
+    { obs := { wRan with layers := [{ seen := .other "R0", calls := 0, token := none }] }, hr := [1, 0] } =
+    some (.base (.wrongInfo 0 (.other "R0"))) := by decide
+example : sessMonitor 2 0 (wReq ["a", "b"]) { obs := wRan, hr := [1] } = some .malformedRuns := by decide
+/-- a second application of the value leaves the first wrapper's handler alone -/
+example : (({ opts := none, wrappers := [] } : Sess String).run (α := Tag) [.wrap 0, .wrap 1]).1.wrappers = [0, 1] := rfl
+
+end witnesses
+
 end Bearer
